@@ -498,6 +498,9 @@ def run_history(job):
     (base, pym, hseed, nevents, want_model) = job[:5]
     deadline = job[5] if len(job) > 5 else None
     flavor = job[6] if len(job) > 6 else "random"
+    variant = None
+    if ":" in flavor:
+        flavor, variant = flavor.split(":", 1)
     from gen.c12world import World, parse_gitlog, snap_of
     r = random.Random(hseed)
     if os.path.exists(base):
@@ -506,8 +509,8 @@ def run_history(job):
     w = World(base, pym)
     rec = {"hseed": hseed, "nevents": nevents, "events": [], "violations": [], "contract": [], "skipped": None, "log": []}
     try:
-        rec["flavor"] = flavor
-        _history(w, r, rec, nevents, want_model, parse_gitlog, snap_of, deadline, flavor)
+        rec["flavor"] = flavor + (":" + variant if variant else "")
+        _history(w, r, rec, nevents, want_model, parse_gitlog, snap_of, deadline, flavor, variant)
     except Exception as e:  # harness problem: never a verdict
         import traceback
         rec["skipped"] = "harness: %s: %s" % (type(e).__name__, e)
@@ -517,7 +520,7 @@ def run_history(job):
     return rec
 
 
-def _history(w, r, rec, nevents, want_model, parse_gitlog, snap_of, deadline=None, flavor="random"):
+def _history(w, r, rec, nevents, want_model, parse_gitlog, snap_of, deadline=None, flavor="random", fvariant=None):
     # ---- universe
     w.gen_repo(r, "r0", ignore=IGNORED if (r.random() < 0.6 or flavor == "nested-attic") else None)
     w.gen_repo(r, "r1", ignore=IGNORED if r.random() < 0.3 else None)
@@ -532,8 +535,29 @@ def _history(w, r, rec, nevents, want_model, parse_gitlog, snap_of, deadline=Non
     w.gen_file(r, "s0.txt", False)
     policies = {"scmIgnoreUser": True, "pruneImportScm": r.random() < 0.5, "gitCommitOnBranch": r.random() < 0.6,
                 "fixImportScmVariant": True, "defaultFileMode": False, "urlScmSeparateDownload": False}
+    if flavor == "ubc-tag-move":
+        policies["gitCommitOnBranch"] = True
     ubc = policies["gitCommitOnBranch"]
-    specs = gen_initial(r, w, nested=(flavor == "nested-attic"))
+    scen = {}
+    if flavor == "branch-return":
+        # one git SCM on branch A
+        scen["A"] = r.choice(["master", "dev"])
+        scen["dir"] = r.choice([".", "a"])
+        specs = [{"scm": "git", "url": "file://" + w.repos["r0"], "branch": scen["A"], "dir": scen["dir"]}]
+    elif flavor == "ubc-tag-move":
+        # branch + tag, both tags on the branch (m2 newer than m1)
+        gw = os.path.join(w.base, "gen", "r0")
+        rc_, out_ = w.git(gw, "rev-list", "master")
+        mc_ = out_.split()
+        w.git(gw, "tag", "m2", mc_[0])
+        w.git(gw, "tag", "m1", mc_[min(len(mc_) - 1, r.randrange(1, 3))])
+        w.git(gw, "push", "-q", "origin", "m1", "m2")
+        w.git(w.repos["r0m"], "fetch", "-q", "-p", w.repos["r0"], "+refs/*:refs/*", check=False)
+        w.index_commits(w.repos["r0"])
+        scen["dir"] = r.choice([".", "a"])
+        specs = [{"scm": "git", "url": "file://" + w.repos["r0"], "branch": "master", "tag": "m2", "dir": scen["dir"]}]
+    else:
+        specs = gen_initial(r, w, nested=(flavor == "nested-attic"))
     used = True
     write_recipes(w, specs, used, policies)
     attic_index = {}
@@ -690,16 +714,86 @@ def _history(w, r, rec, nevents, want_model, parse_gitlog, snap_of, deadline=Non
 
     # ---- initial checkout
     bob_event("dev", ["dev", "root"])
+    past_specs = [[dict(s_) for s_ in specs]]
+    if flavor == "branch-return":
+        # leave branch A, upstream moves A meanwhile, come back: the untouched workspace must follow
+        A = scen["A"]
+        w.up_commit(r, "r0", A)
+        w.git(w.repos["r0m"], "fetch", "-q", "-p", w.repos["r0"], "+refs/*:refs/*", check=False)
+        w.index_commits(w.repos["r0m"])
+        rec["log"].append("up-commit r0 " + A)
+        cache.clear()
+        away = dict(specs[0])
+        if r.random() < 0.6:
+            away["branch"] = "dev" if A == "master" else "master"
+        else:
+            away.pop("branch")
+            away["tag"] = r.choice(["v1", "v2"])
+        back = [dict(specs[0])]
+        specs = [away]
+        write_recipes(w, specs, used, policies)
+        rec["log"].append("edit-ref (leave %s) %s" % (A, json.dumps([away.get("branch"), away.get("tag")])))
+        changed = True
+        bob_event("dev", ["dev", "root"])
+        if r.random() < 0.4:
+            w.up_commit(r, "r0", A)
+            w.git(w.repos["r0m"], "fetch", "-q", "-p", w.repos["r0"], "+refs/*:refs/*", check=False)
+            w.index_commits(w.repos["r0m"])
+            rec["log"].append("up-commit r0 " + A)
+            cache.clear()
+        specs = back
+        write_recipes(w, specs, used, policies)
+        rec["log"].append("edit-ref (back to %s)" % A)
+        changed = True
+        nevents = 0
+    elif flavor == "ubc-tag-move":
+        # user work on the configured branch of a branch+tag SCM, the user sits elsewhere, the recipe moves the tag
+        path = os.path.join(wsroot, scen["dir"])
+        d = norm(scen["dir"])
+        variant = {"leave": 0.2, "stay": 0.6, "dirty": 0.9}.get(fvariant, r.random())
+        if variant < 0.7:
+            with open(os.path.join(path, "c%d.txt" % w.counter), "w") as fh:
+                fh.write(w.token("commit") + "\n")
+            w.git(path, "add", "-A", ".", check=False)
+            rc_, _ = w.git(path, "commit", "-q", "-m", "local " + w.token("m"), check=False)
+            rc_, sha = w.git(path, "rev-parse", "HEAD")
+            w.user_commits.add(sha.strip())
+            w.index_commits(path)
+            ledger.append({"kind": "commit", "sha": sha.strip(), "dir": d, "nested": False})
+            rec["log"].append("user %s: commit %s on master" % (d, sha.strip()[:8]))
+            if variant < 0.55:
+                w.git(path, "checkout", "-q", "-b", "review", "origin/" + r.choice(["master", "dev"]), check=False)
+                rec["log"].append("user %s: checkout -b review origin/..." % d)
+        else:
+            rc_, tracked = w.git(path, "ls-files", check=False)
+            f = r.choice([x for x in tracked.split() if x != ".gitignore"])
+            tok = w.token("dirty")
+            with open(os.path.join(path, f), "a") as fh:
+                fh.write(tok + "\n")
+            ledger.append({"kind": "file", "token": tok, "name": f, "dir": d, "nested": False})
+            rec["log"].append("user %s: dirty %s" % (d, f))
+        touched.add(d)
+        cache.clear()
+        specs = [dict(specs[0], tag="m1")]
+        write_recipes(w, specs, used, policies)
+        rec["log"].append("edit-ref (tag m2 -> m1)")
+        changed = True
+        bob_event("dev", ["dev", "root"])
+        nevents = 0
     for step in range(nevents):
-        # a guaranteed minimum also on a loaded machine: three events of every history, scenarios completely
-        if deadline is not None and time.time() > deadline and step >= 3 and flavor == "random":
+        if deadline is not None and time.time() > deadline and flavor == "random":
             rec["log"].append("(history cut: time budget)")
             rec["cut"] = True
             return
         k = r.random()
         gd = git_dirs()
         if k < 0.22:
-            specs, desc = edit_specs(r, w, specs)
+            if len(past_specs) > 1 and r.random() < 0.3:
+                # back to an earlier recipe (leave a branch / tag and come back)
+                specs, desc = [dict(s_) for s_ in r.choice(past_specs[:-1])], "edit-back"
+            else:
+                specs, desc = edit_specs(r, w, specs)
+            past_specs.append([dict(s_) for s_ in specs])
             write_recipes(w, specs, used, policies)
             rec["log"].append(desc + " " + json.dumps([[s["scm"], s.get("dir"), s.get("branch"), s.get("tag"), (s.get("commit") or "")[:7],
                                                         os.path.basename(s["url"])] for s in specs]))
@@ -767,7 +861,7 @@ def _history(w, r, rec, nevents, want_model, parse_gitlog, snap_of, deadline=Non
             if not os.path.isdir(wsroot):
                 touched.clear()
     # ---- scripted tails that make the clean commands meet user work (otherwise a rare coincidence)
-    tail = {"clean-src": 0.1, "nested-attic": 0.5, "collision": 0.8}.get(flavor, r.random())
+    tail = {"clean-src": 0.1, "nested-attic": 0.5, "collision": 0.8, "branch-return": 0.99, "ubc-tag-move": 0.99}.get(flavor, r.random())
     if not rec.get("cut") and tail < 0.35:
         gd = git_dirs()
         if gd and used:
@@ -1221,32 +1315,40 @@ def history_requests(rec):
 _CACHE = {}
 
 
+FORCED = ["branch-return", "ubc-tag-move:leave", "nested-attic", "clean-src", "collision", "ubc-tag-move:dirty", "branch-return",
+          "ubc-tag-move:stay"]
+
+
 def histories(ctx, want_model):
+    """mandatory: 8 short forced scenarios (one per critical shape, in parallel); then random histories in batches
+    for as long as the time budget allows"""
     key = (ctx.seed, ctx.tier)
     if key in _CACHE:
         return _CACHE[key]
-    n = int(os.environ.get("C12_NHIST", 0)) or ctx.scale(44, 1500)
-    lo, hi = ctx.scale((8, 14), (20, 30))
+    pym = os.path.join(ctx.repo, "pym")
     r = ctx.subrng("histories")
-    jobs = []
-    for i in range(n):
-        hseed = "C12-%d-%s-%d" % (ctx.seed, ctx.tier, i)
-        # every fourth history is a short scenario that makes a critical coincidence certain: user work in a nested
-        # clone whose parent goes to the attic + clean --attic; user work + unused package + clean -s; the user's own
-        # directory where the recipe then wants a checkout
-        flavor = ["nested-attic", "clean-src", "collision", "nested-attic"][(i // 4) % 4] if i % 4 == 1 else "random"
-        nev = r.randrange(lo, hi + 1)
-        if flavor != "random":
-            nev = r.randrange(0, 4)
-        jobs.append((os.path.join(ctx.tmp, "h%d" % i), os.path.join(ctx.repo, "pym"), hseed, nev, True,
-                     getattr(ctx, 't_run0', ctx.t0) + ctx.budget - 40, flavor))
+    nforced = int(os.environ.get("C12_NFORCED", 0)) or ctx.scale(8, 160)
+    nrandom = int(os.environ.get("C12_NHIST", 0)) or ctx.scale(40, 1500)
+    lo, hi = ctx.scale((6, 10), (20, 30))
     recs = []
-    batch = 16
-    for i in range(0, len(jobs), batch):
-        if ctx.time_left() < 60 and i > 0:
-            ctx.skip("histories %d.. not run: time budget" % i)
+    jobs = [(os.path.join(ctx.tmp, "f%d" % i), pym, "C12-%d-%s-f%d" % (ctx.seed, ctx.tier, i), r.randrange(0, 3), True, None,
+             FORCED[i % len(FORCED)]) for i in range(nforced)]
+    for i in range(0, len(jobs), 8):
+        if i > 0 and ctx.time_left() < 90:
+            ctx.skip("forced scenarios %d.. not run: time budget" % i)
             break
-        recs.extend(ctx.parallel(run_history, jobs[i:i + batch], workers=16))
+        recs.extend(ctx.parallel(run_history, jobs[i:i + 8], workers=8))
+    i = 0
+    while i < nrandom:
+        left = ctx.time_left()
+        if left < 75:
+            ctx.skip("random histories %d.. not run: time budget" % i)
+            break
+        deadline = time.time() + left - 55
+        jobs = [(os.path.join(ctx.tmp, "h%d" % j), pym, "C12-%d-%s-%d" % (ctx.seed, ctx.tier, j), r.randrange(lo, hi + 1), True,
+                 deadline, "random") for j in range(i, min(nrandom, i + 8))]
+        recs.extend(ctx.parallel(run_history, jobs, workers=8))
+        i += 8
     _CACHE[key] = recs
     if os.environ.get("C12_SAVE"):
         json.dump(recs, open(os.environ["C12_SAVE"] + "-%d.json" % ctx.seed, "w"), default=repr)
@@ -1469,11 +1571,11 @@ def direct_git(ctx):
     n = int(os.environ.get("C12_NGIT", 0)) or ctx.scale(96, 4000)
     jobs = [(os.path.join(ctx.tmp, "g%d" % i), os.path.join(ctx.repo, "pym"), "C12g-%d-%s-%d" % (ctx.seed, ctx.tier, i)) for i in range(n)]
     results = []
-    for i in range(0, len(jobs), 16):
-        if ctx.time_left() < 25 and i > 0:
+    for i in range(0, len(jobs), 8):
+        if ctx.time_left() < 35 and i > 0:
             ctx.skip("direct git cases %d.. not run: time budget" % i)
             break
-        results.extend(ctx.parallel(direct_git_case, jobs[i:i + 16], workers=16))
+        results.extend(ctx.parallel(direct_git_case, jobs[i:i + 8], workers=8))
     greqs, gmeta = [], []
     for res in results:
         if res.get("skipped"):
